@@ -8,17 +8,19 @@ def plan(tier, seed):
     nmax = 3 if tier == 'quick' else 4
     for n in range(0, nmax + 1):
         units.append(dict(hfile='isolation.py', fname='c17_forms_free', args=(n,), split=(96 if n >= 4 else 16 if n == 3 else 0)))
+    for n in range(1, nmax + 1):
+        units.append(dict(hfile='isolation.py', fname='c17_forms_free', args=(n, False), split=(96 if n >= 4 else 16 if n == 3 else 0)))
     docs, info = cover.cover_docs(tier, seed)
     step = 6 if tier == 'quick' else 2
     for di in range(0, len(docs), step):
         for v in cover.variants(docs[di], seed * 7919 + di)[:2]:
             units.append(dict(hfile='isolation.py', fname='c17_forms_doc', args=(v,)))
-    for ai in range(4):
-        for bi in range(4):
+    for ai in range(5):
+        for bi in range(5):
             units.append(dict(hfile='isolation.py', fname='c17_isolation', args=(ai, bi)))
     return dict(units=units,
                 bounds={'input_forms': 'str vs list/tuple at 5 split points, 3-chunk generator, list of characters, single-element list, io.StringIO; FREE(0..%d) (LF-free for the file form) and every %dth skeleton of the cover' % (nmax, step),
-                        'isolation': '4x4 ordered pairs of hole documents: parse B, parse+edit A, parse B, edit second B tree, parse B',
+                        'isolation': '5x5 ordered pairs of hole documents (one with unbraced arguments of fixed-signature commands): parse B, parse+edit A, parse B, edit second B tree, parse B',
                         'hash_seeds': 'sizing prefix + FREE(2), $ sizing FREE a $, FREE(3), skeleton subset explored in fresh interpreters per seed; partition equivalence with seed 0 decided by z3'},
                 outside=['file objects with universal-newline translation', 'strings longer than the bounds'],
                 assumptions=['PYTHONHASHSEED is the only source of iteration-order nondeterminism'])
